@@ -292,6 +292,12 @@ def type_name(
     elif is_new_type(typ) and not PY_310_MIN:
         # because __qualname__ and __module__ are messed up
         typ = typ.__supertype__
+    elif is_type_alias_type(typ):
+        # PEP 695 aliases have no __qualname__
+        if short:
+            return typ.__name__
+        else:
+            return f"{typ.__module__}.{typ.__name__}"
     try:
         if short:
             return typ.__qualname__  # type: ignore
@@ -303,6 +309,9 @@ def type_name(
 
 def is_importable_type(typ: Any) -> bool:
     # whether the dotted name rendered by type_name() leads back to the type
+    if is_type_alias_type(typ):
+        module = sys.modules.get(typ.__module__)
+        return getattr(module, typ.__name__, None) is typ
     for arg in get_args(typ):
         if not is_importable_type(arg):
             return False
